@@ -362,12 +362,17 @@ def v4_parameter_translation(ctx) -> None:
     ok = False
     if loops:
         pr, mp = _zip_roles(f, loops[0], "child_parameters")
-        inner = [l for l in walk_local(loops[0]) if isinstance(l, ast.For) and norm(l.iter) == mp]
+        inner = [l for l in walk_local(loops[0]) if isinstance(l, ast.For) and norm(l.iter) in (mp, f"{mp}.keys()", f"{mp}.items()")]
         if inner:
-            k = norm(inner[0].target)
-            mk = PT.find_all(inner[0], "_M_mk = _M_mp[_M_k]", {"_M_mp": mp, "_M_k": k})
-            if mk:
-                mkn = mk[0][1]["_M_mk"]
+            mkn = None
+            if norm(inner[0].iter) == f"{mp}.items()" and isinstance(inner[0].target, ast.Tuple) and len(inner[0].target.elts) == 2:
+                k, mkn = (norm(e) for e in inner[0].target.elts)
+            else:
+                k = norm(inner[0].target)
+                mk = PT.find_all(inner[0], "_M_mk = _M_mp[_M_k]", {"_M_mp": mp, "_M_k": k})
+                if mk:
+                    mkn = mk[0][1]["_M_mk"]
+            if mkn is not None:
                 ok = PT.has(inner[0], "_M_ep[_M_mk] = _M_pr[_M_k]", {"_M_mk": mkn, "_M_pr": pr, "_M_k": k}) and \
                     bool(PT.find_all(inner[0], "_M_ep[_M_mk] != _M_pr[_M_k]", {"_M_mk": mkn, "_M_pr": pr, "_M_k": k}))
     if ok:
